@@ -15,6 +15,17 @@ def sh(cmd, cwd=None):
     return p.returncode, p.stdout
 
 
+def meta_demo_dir(d):
+    """package of the demonstration test decides where it is copied"""
+    for f in os.listdir(d):
+        if f.endswith("_test.go"):
+            for line in open(os.path.join(d, f)):
+                if line.startswith("package "):
+                    pk = line.split()[1]
+                    return {"tests": "tests", "deploy": "deploy"}.get(pk, "tests")
+    return "tests"
+
+
 def main():
     sid, prop, needs = sys.argv[1], sys.argv[2], sys.argv[3]
     check_with = sys.argv[4:] or [prop]
@@ -26,7 +37,7 @@ def main():
     res = {}
     try:
         demo = [f for f in os.listdir(d) if f.endswith("_test.go")]
-        demo_dir = "tests"
+        demo_dir = meta_demo_dir(d)
         rc, out = sh("git apply --binary %s" % os.path.join(d, "patch.diff"), cwd=wt)
         res["patch_applies"] = rc == 0
         rc, out = sh("go build ./... && go test -vet=off -count=1 ./... 2>&1 | grep -v 'no test files' | grep -v '^ok' | head -20", cwd=wt)
@@ -48,7 +59,7 @@ def main():
     meta.update({"id": sid, "property": prop, "check_with": check_with, "needs_to_manifest": needs,
                  "base_commit": head.strip(), "confirmed": res,
                  "ran": ["git apply --binary patch.diff (clean worktree of /repo HEAD)", "go build ./... && go test -vet=off -count=1 ./...",
-                         "cp zz_demo_test.go tests/ && go test -run TestDemo ./tests/ (with and without the patch)"]})
+                         "cp zz_demo_test.go <pkg dir>/ && go test -run TestDemo ./<pkg dir>/ (with and without the patch)"]})
     json.dump(meta, open(mp, "w"), indent=1)
     ok = res.get("patch_applies") and res.get("suite_passes_with_change") and res.get("demo_fails_with_change") and res.get("demo_passes_without_change")
     print(sid, "CONFIRMED" if ok else "NOT CONFIRMED", json.dumps({k: v for k, v in res.items() if isinstance(v, bool)}))
